@@ -33,12 +33,13 @@ ID = "C33"
 LEVEL = "proof"
 TECHNIQUE = "relational symbolic execution of the real update_E/update_H (and update_detector_states) on the reduced and the full domain; inductive light-cone invariant proved pointwise by z3 / ite-split ring normal form"
 MODULES = K.SOLVER_MODULES + ["fdtdx.objects.detectors.field", "fdtdx.core.physics.symmetry"]
-FILES = K.SOLVER_FILES + ["src/fdtdx/fdtd/symmetry.py", "src/fdtdx/core/physics/symmetry.py"]
+FILES = K.SOLVER_FILES + ["src/fdtdx/fdtd/symmetry.py", "src/fdtdx/core/physics/symmetry.py", "src/fdtdx/objects/detectors/detector.py"]
 FUNCTIONS = [
     "fdtdx.fdtd.update.update_E / update_H (reduced run: PEC symmetry wall, zero halo behind the plane)",
     "fdtdx.fdtd.update.pad_fields_for_boundaries (symmetry axes never wrap their min-side halo)",
     "fdtdx.fdtd.update.pad_fields_with_symmetry_mirror + interpolate_fields (detector clause)",
     "fdtdx.objects.boundaries.pec.PerfectElectricConductor.apply_post_E_update",
+    "fdtdx.fdtd.symmetry.unfold_fields / unfold_detector_states (tasks unfolding(C32)/*: C32's contracts for symmetry tuples with an electric plane, re-proved under this property)",
 ]
 STUBS = ["detector schedule arrays arbitrary, with 0 <= idx[t] < rows (C14)"]
 ASSUMPTIONS = [
@@ -278,6 +279,16 @@ def tasks(tier, seed):
         for fi, far in enumerate(fars if tier == "thorough" else fars[:2]):
             for ti, tr in enumerate(trans_opts if (tier == "thorough" or fi == 0) else trans_opts[:1]):
                 out[f"detector/axis{a}/far={far}/trans{ti}"] = Task(_detector_task(dict(axis=a, far=far, trans=tr)), max_paths=256)
+    # "running the reduced domain AND UNFOLDING gives the same ... records": the unfolding of fields and of stored
+    # detector records (unfold_fields / unfold_detector_states: parity per stored component, mirror pairing) is
+    # C32's contract; its tasks on symmetry tuples with an electric plane are re-proved here on the same real
+    # code, so that a change to the unfolding fails under this property as well.
+    import props.C32 as P32
+
+    for k, t in P32.tasks(tier, seed).items():
+        grp, _, rest = k.partition("/")
+        if grp in ("detectors", "unfold_fields") and "e" in rest.split("/")[0]:
+            out[f"unfolding(C32)/{k}"] = Task(t.body, modules=P32.MODULES, axioms=t.axioms, on_exception=t.on_exception, extra_patch=t.extra_patch, bounded=t.bounded, max_paths=t.max_paths, patch_names=t.patch_names)
     return out
 
 
@@ -311,6 +322,14 @@ def _np_unfold(R, kind, a, n, rng):
 
 
 def replay(key, obligation, witness):
+    if key.startswith("unfolding(C32)/"):
+        import props.C32 as P32
+
+        return P32.replay(key.split("/", 1)[1], obligation, witness)
+    return _replay_step(key, obligation, witness)
+
+
+def _replay_step(key, obligation, witness):
     """real update_E/update_H (and update_detector_states) under real JAX on a concrete reduced domain and on
     the full domain built from it by unfolding (materials constant along the axis); compares full with
     unfold(reduced) outside the influence region after 1..n-1 steps, and the co-located detector records"""
